@@ -3,7 +3,6 @@ package main
 import (
 	"bufio"
 	"bytes"
-	"context"
 	"encoding/json"
 	"fmt"
 	"io"
@@ -11,6 +10,7 @@ import (
 	"os/exec"
 	"strings"
 	"sync"
+	"syscall"
 	"time"
 )
 
@@ -123,15 +123,30 @@ func runInChildren(child string, n, workers, chunk int, mkJob func(lo, hi int) i
 				for sp.lo < sp.hi {
 					in, _ := json.Marshal(mkJob(sp.lo, sp.hi))
 					// watchdog: a child that is wedged (e.g. a lock of the code under test that is never released) is killed
-					wctx, wcancel := context.WithTimeout(context.Background(), time.Duration(45+20*(sp.hi-sp.lo))*time.Second)
-					cmd := exec.CommandContext(wctx, os.Args[0], child)
+					cmd := exec.Command(os.Args[0], child)
 					cmd.Stdin = bytes.NewReader(in)
 					var out, errb bytes.Buffer
 					cmd.Stdout = &out
 					cmd.Stderr = &errb
-					runErr := cmd.Run()
-					hung := wctx.Err() != nil
-					wcancel()
+					hung := false
+					runErr := cmd.Start()
+					if runErr == nil {
+						waitCh := make(chan error, 1)
+						go func() { waitCh <- cmd.Wait() }()
+						select {
+						case runErr = <-waitCh:
+						case <-time.After(time.Duration(45+20*(sp.hi-sp.lo)) * time.Second):
+							// wedged: ask the Go runtime for the stacks of all goroutines (SIGQUIT), then make sure it is gone
+							hung = true
+							cmd.Process.Signal(syscall.SIGQUIT)
+							select {
+							case runErr = <-waitCh:
+							case <-time.After(5 * time.Second):
+								cmd.Process.Kill()
+								runErr = <-waitCh
+							}
+						}
+					}
 					// split the output into items
 					done := sp.lo
 					var cur []obj
@@ -165,11 +180,20 @@ func runInChildren(child string, n, workers, chunk int, mkJob func(lo, hi int) i
 						cur = []obj{{"t": t, "e": "reset"}}
 					}
 					tail := errb.String()
-					if len(tail) > 1500 {
-						tail = tail[:1500]
-					}
 					if hung {
-						tail = "the child process was wedged and had to be killed; " + tail
+						// keep the interesting part of the goroutine dump: frames of the code under test and of the harness
+						var keep []string
+						for _, ln := range strings.Split(tail, "\n") {
+							if strings.HasPrefix(ln, "goroutine ") || strings.Contains(ln, "/repo/") || strings.Contains(ln, "cmd/drv/") {
+								keep = append(keep, strings.TrimSpace(ln))
+							}
+						}
+						tail = "the child process was wedged and had to be killed; " + strings.Join(keep, " | ")
+						if len(tail) > 12000 {
+							tail = tail[:12000]
+						}
+					} else if len(tail) > 1500 {
+						tail = tail[:1500]
 					}
 					cur = append(cur, obj{"t": t, "e": "crash", "hang": hung, "detail": tail}, obj{"t": t, "e": "end"})
 					em.lines(cur)
